@@ -653,7 +653,7 @@ func TestVerifC16Builder(t *testing.T) {
 // TestVerifC16RoundTrip: the same oracle through TracingRoundTripper and
 // TracingHandler with racing transport error / body error / cancel.
 func TestVerifC16RoundTrip(t *testing.T) {
-	rep := verifkit.Begin("C16", "roundtrip", "traced client round trips over a scripted transport (ok / transport error / body error / cancel racing body end, body read delays 0-200 us, body closed or not) and traced server handlers (write + early return, panic, client cancel); oracle: exactly one Complete per named operation, terminal event last; distinct = (side, mode, delivered event kinds)")
+	rep := verifkit.Begin("C16", "roundtrip", "traced client round trips over a scripted transport (ok / transport error / body error / cancel racing body end, body read delays 0-200 us, body closed or not, or closed by a second goroutine while the first is still reading) and traced server handlers (write + early return, panic, client cancel); oracle: exactly one Complete per named operation, terminal event last, each body ends at most once; distinct = (side, mode, delivered event kinds)")
 	defer rep.Write()
 	n := verifkit.Scale(3000, 100000)
 	coll := &vfCountingCollector{}
@@ -667,6 +667,8 @@ func TestVerifC16RoundTrip(t *testing.T) {
 		bodyDelay := time.Duration(rng.Intn(200)) * time.Microsecond
 		cancelDelay := time.Duration(rng.Intn(300)) * time.Microsecond
 		closeBody := rng.Bool()
+		racyClose := rng.Chance(1, 3)
+		closeDelay := time.Duration(rng.Intn(3)) * bodyDelay / 2
 		name := fmt.Sprintf("r%d", i)
 		wg.Add(1)
 		sem <- struct{}{}
@@ -675,7 +677,14 @@ func TestVerifC16RoundTrip(t *testing.T) {
 			defer func() { <-sem }()
 			if mode <= 3 {
 				rt := TracingRoundTripper(roundTripperFunc(func(req *http.Request) (*http.Response, error) {
-					if req.Body != nil {
+					if req.Body != nil && racyClose {
+						// like a real transport: the body is read by one goroutine and closed by another
+						done := make(chan struct{})
+						go func() { _, _ = io.Copy(io.Discard, req.Body); close(done) }()
+						time.Sleep(closeDelay)
+						req.Body.Close()
+						<-done
+					} else if req.Body != nil {
 						_, _ = io.Copy(io.Discard, req.Body)
 						req.Body.Close()
 					}
@@ -697,7 +706,13 @@ func TestVerifC16RoundTrip(t *testing.T) {
 					go func() { time.Sleep(cancelDelay); cancel() }()
 				}
 				resp, err := rt.RoundTrip(req)
-				if err == nil {
+				if err == nil && racyClose {
+					done := make(chan struct{})
+					go func() { _, _ = io.Copy(io.Discard, resp.Body); close(done) }()
+					time.Sleep(closeDelay)
+					resp.Body.Close()
+					<-done
+				} else if err == nil {
 					_, _ = io.Copy(io.Discard, resp.Body)
 					if closeBody {
 						resp.Body.Close()
@@ -745,6 +760,19 @@ func TestVerifC16RoundTrip(t *testing.T) {
 			kinds = append(kinds, strings.TrimPrefix(fmt.Sprintf("%T", e), "*tracer."))
 		}
 		rep.DistinctKey(modes[i], kinds)
+		nReqEnd, nRespEnd := 0, 0
+		for _, e := range evs {
+			switch e.(type) {
+			case *RequestBodyEnd:
+				nReqEnd++
+			case *ResponseBodyEnd:
+				nRespEnd++
+			}
+		}
+		if nReqEnd > 1 || nRespEnd > 1 {
+			w["delivered"] = kinds
+			rep.Violation("builder/roundtrip-body-end-twice", fmt.Sprintf("a body ended %d/%d times (request/response) in one trace (%s)", nReqEnd, nRespEnd, w["mode"]), w)
+		}
 		for j, e := range evs {
 			if vfIsTerminal(e) && j != len(evs)-1 {
 				w["delivered"] = kinds
